@@ -61,7 +61,7 @@ def convert(instance, attrib, new_value):
     .. versionadded:: 20.1.0
     """
     c = attrib.converter
-    if c:
+    if c is not None:
         # This can be removed once we drop 3.8 and use attrs.Converter instead.
         from ._make import Converter
 
